@@ -71,9 +71,14 @@ def statusViolation (j : Json) : Bool :=
       match tdefs.lookup ref with
       | none => false
       | some (base, st) => (srcMod = modOfQ ref && srcSt < st) || walk f (modOfQ ref) st base
-  mods.any fun s => (jarr s "leaves").any fun l =>
+  (mods.any fun s => (jarr s "leaves").any fun l =>
     -- (no feature is enabled in this stream: a leaf with an if-feature is not built, its type not looked at)
-    jstr l "type" ≠ "identityref" && (jarr l "iff").isEmpty && walk 100 (jstr s "name") (stRank (jstr l "st")) (jstr l "type")
+    jstr l "type" ≠ "identityref" && (jarr l "iff").isEmpty && walk 100 (jstr s "name") (stRank (jstr l "st")) (jstr l "type")) ||
+  -- a uses of a grouping of its own module: the status the uses has — its own, or the one it inherits from the nearest
+  -- node above that states one, however far up — may not be better than the grouping's
+  (mods.any fun s => (jarr s "gst").any fun e =>
+    let eff := if jstr e "u" ≠ "" then stRank (jstr e "u") else stRank (jstr e "o")
+    eff < stRank (jstr e "g"))
 
 /-- the verdict; `allTypedefs` = the specification (every typedef must be acyclic), otherwise the code
     (only the typedefs a leaf uses are followed) -/
